@@ -68,3 +68,7 @@ package corebgp
 //@ ghostfield capOffs intarray
 //@ pure capsDecoded(c, pb, offs) = len(c.capabilities) >= 1 && capChain(pb, offs, len(c.capabilities), len(pb)) && (forall j :: 0 <= j && j < len(c.capabilities) ==> capOK(pb, offs[j]) && capIs(c.capabilities[j], pb, offs[j]))
 //@ pure paramIs(p, b, o) = isType(p, *capabilityOptionalParam) && asType(p, *capabilityOptionalParam) != nil && b[o] == 2 && b[o+1] >= 1 && capsDecoded(asType(p, *capabilityOptionalParam), b[o+2 : o+2+b[o+1]], capOffs(asType(p, *capabilityOptionalParam)))
+// AS_PATH segments (RFC 4271 4.3 with 4-octet AS numbers): type(1) count(1) count*4 octets
+//@ pure segNext(b, o) = o + 2 + 4 * b[o+1]
+//@ pure segOK(b, o) = 0 <= o && o + 6 <= len(b) && (len(b) - o) % 2 == 0 && (b[o] == 1 || b[o] == 2) && b[o+1] >= 1 && segNext(b, o) <= len(b)
+//@ pure segChain(b, offs, n, pos) = (n == 0 ? pos == 0 : offs[0] == 0 && pos == segNext(b, offs[n-1])) && (forall k :: 0 <= k && k < n - 1 ==> offs[k+1] == segNext(b, offs[k]))
